@@ -81,6 +81,20 @@ def insertShared (t : Bytes) (d cell : Nat) : List (Bytes × List Part) → Node
     let dup := (Node.find root parts).isSome
     insertShared t d cell rest (Node.insert root parts info) (if dup then drops + 1 else drops)
 
+/-- templates of the live routes that collide with an expansion, in expansion order -/
+def conflictsOf (root : Node) (ts : List (Bytes × List Part)) : List Bytes :=
+  ts.filterMap (fun e => (Node.find root e.2).map (·.template))
+
+/-- the mutation of a successful `Router::insert` -/
+def Router.insertOk (r : Router) (t : Bytes) (d : Nat) (ts : List (Bytes × List Part)) : Router :=
+  match ts with
+  | [(raw, parts)] =>
+    let info : Info := { template := t, data := d, depth := countSlash raw, length := raw.length }
+    { r with root := Node.optimize (Node.insert r.root parts info) }
+  | _ =>
+    let res := insertShared t d r.next ts r.root 0
+    { r with root := Node.optimize res.1, rc := rcSet r.rc r.next (ts.length - res.2), next := r.next + 1 }
+
 def Router.insert (r : Router) (t : Bytes) (d : Nat) : Except InsertErr Router :=
   match parseTemplates t with
   | .error e => .error (.template e)
@@ -88,16 +102,9 @@ def Router.insert (r : Router) (t : Bytes) (d : Nat) : Except InsertErr Router :
     match firstUnknown (fun c => r.registry.any (·.1 == c)) ts with
     | some c => .error (.unknownConstraint c)
     | none =>
-      let conflicts := ts.filterMap (fun e => (Node.find r.root e.2).map (·.template))
-      if !conflicts.isEmpty then .error (.conflict t (dedupAdj (sortBytes conflicts)))
-      else
-        match ts with
-        | [(raw, parts)] =>
-          let info : Info := { template := t, data := d, depth := countSlash raw, length := raw.length }
-          .ok { r with root := Node.optimize (Node.insert r.root parts info) }
-        | _ =>
-          let (root', drops) := insertShared t d r.next ts r.root 0
-          .ok { r with root := Node.optimize root', rc := rcSet r.rc r.next (ts.length - drops), next := r.next + 1 }
+      match conflictsOf r.root ts with
+      | [] => .ok (r.insertOk t d ts)
+      | c :: cs => .error (.conflict t (dedupAdj (sortBytes (c :: cs))))
 
 /-- the delete loop: every expansion in order; `output` keeps the last `Some` -/
 def deleteAll : List (Bytes × List Part) → Node → List (Nat × Nat) → Option Nat → Node × List (Nat × Nat) × Option Nat
@@ -113,25 +120,31 @@ def deleteAll : List (Bytes × List Part) → Node → List (Nat × Nat) → Opt
         let n := rcGet rc c - 1
         deleteAll rest root' (rcSet rc c n) (if n = 0 then some i.data else out)
 
+/-- the live template, other than `t`, owning the first expansion that is a live route -/
+def mismatchOf (root : Node) (t : Bytes) (ts : List (Bytes × List Part)) : Option Bytes :=
+  ts.findSome? (fun e =>
+    match Node.find root e.2 with
+    | some i => if i.template == t then none else some i.template
+    | none => none)
+
+/-- the mutation of a `Router::delete` that got past validation, with its outcome -/
+def Router.deleteOk (r : Router) (t : Bytes) (ts : List (Bytes × List Part)) : Except DeleteErr Nat × Router :=
+  let res := deleteAll ts r.root r.rc none
+  match res.2.2 with
+  | none => (.error (.notFound t), { r with root := res.1, rc := res.2.1 })
+  | some d => (.ok d, { r with root := Node.optimize res.1, rc := res.2.1 })
+
 /-- `Router::delete`; the second component is the state after the call (it differs from the input state on the
-late `NotFound` path, which is reachable only when a clone shares a cell) -/
+late `NotFound` path of `deleteOk`, which is reachable only when a clone shares a cell) -/
 def Router.delete (r : Router) (t : Bytes) : Except DeleteErr Nat × Router :=
   match parseTemplates t with
   | .error e => (.error (.template e), r)
   | .ok ts =>
-    let mism := ts.findSome? (fun e =>
-      match Node.find r.root e.2 with
-      | some i => if i.template == t then none else some i.template
-      | none => none)
-    match mism with
+    match mismatchOf r.root t ts with
     | some ins => (.error (.mismatch t ins), r)
     | none =>
       if ts.any (fun e => (Node.find r.root e.2).isNone) then (.error (.notFound t), r)
-      else
-        let (root', rc', out) := deleteAll ts r.root r.rc none
-        match out with
-        | none => (.error (.notFound t), { r with root := root', rc := rc' })
-        | some d => (.ok d, { r with root := Node.optimize root', rc := rc' })
+      else r.deleteOk t ts
 
 def Router.search (env : Env) (r : Router) (path : Bytes) : Option Match :=
   (Node.search env r.root path []).map (fun (i, ps) => ⟨i.template, i.expanded, i.data, ps⟩)
